@@ -69,10 +69,16 @@ def slice_positions(labels, start, stop, step, numeric=None):
                 lo, hi = min(start, stop), max(start, stop)
                 answers.append([p for p in order if lo <= labels[p] <= hi][::k])
         else:
-            answers = [sel(True), sel(False)]
+            # fewer than two labels: the axis has no direction of its own
             if start is not None and stop is not None:
                 lo, hi = min(start, stop), max(start, stop)
-                answers.append([p for p in order if lo <= labels[p] <= hi][::k])
+                boxed = [p for p in order if lo <= labels[p] <= hi][::k]
+                natural = (start <= stop) if not neg else (start >= stop)
+                # bounds given in the natural order of the walk (lo:hi, or hi:lo:-1): the label between them is selected;
+                # against it: empty or the bounding box are both accepted, as for longer axes
+                answers = [boxed] if natural else [[], boxed]
+            else:
+                answers = [sel(True), sel(False)]
         uniq = []
         for a in answers:
             if a not in uniq:
